@@ -1194,6 +1194,40 @@ func main() {
 			add(s, class+"-"+name)
 		}
 	}
+	// 3b. the 101 head TOGETHER WITH immediate payload in the upstream's first chunk(s): payload
+	// sizes around the relay's 1024-byte handshake buffer and bufio's 4096, one chunk or cut at
+	// the interesting boundaries (12, end of head, 1024, 4096), followed by more data
+	for i, pl := range []int{0, 500, 1024 - len(wsHead101), 1025 - len(wsHead101), 1025, 2000, 4096 - len(wsHead101), 4096, 10000} {
+		cuts := []int{0, 12, len(wsHead101), 1024, 4096}
+		for j, cut := range cuts {
+			if !run.Thorough() && j != 0 && (i+j)%2 == 0 {
+				continue
+			}
+			s := g.base(kWS, false)
+			s.PP = false
+			more := 0
+			if (i+j)%3 != 0 {
+				more = 1 + r.Intn(3000)
+			}
+			body := payload(r, pl+more)
+			if pl+more <= 1500 { // small: literal bytes
+				body = randBytes(r, pl+more)
+			}
+			s.Reply = append([]byte(wsHead101), body...)
+			s.WSHead = len(wsHead101)
+			s.RLit = len(s.Reply)
+			if len(body) > 1500 {
+				s.RLit = len(wsHead101)
+			}
+			s.RSeg1 = cut
+			if cut >= len(s.Reply) {
+				s.RSeg1 = 0
+			}
+			name := g.ending(s, []int{0, 3, 4}[r.Intn(3)])
+			s.UTrig = uAtConnect // head and payload leave together
+			add(s, fmt.Sprintf("ws-101-head-plus-%d-payload-%s", pl, name))
+		}
+	}
 	for i, n := range []int{1, 5, 10, 11, 11, 9} {
 		s := g.base(kWS, false)
 		s.PP = false
